@@ -133,7 +133,8 @@ def setup_slot(i):
     os.makedirs(ver + "/evidence", exist_ok=True)
     os.makedirs(ver + "/replays", exist_ok=True)
     p = os.path.join(ver, "executor/Cargo.toml")
-    open(p, "w").write(open(p).read().replace('path = "/repo"', 'path = "%s"' % repo))
+    txt = open(p).read().replace('path = "/repo"', 'path = "%s"' % repo)
+    open(p, "w").write(txt)
     return repo, ver
 
 
